@@ -36,7 +36,8 @@ EXTENDS HpoSetMeta
 
 CONSTANTS World,      \* the ontology value (OntGen schema)
           MaxOps,     \* length of the explored histories
-          ExtendIds   \* ids that extend() may add
+          ExtendIds,  \* ids that extend() may add
+          InitSets    \* the member sets an object may be created with (every subset of the term ids for the small worlds)
 
 VARIABLES members,   \* the current member set of the object
           hist,      \* operations performed so far, each with the observation that must follow it
@@ -49,22 +50,46 @@ Kinds == {"gene", "omim", "orpha"}
 WIds == IdsOf(World)
 WPar == ParOf(World)
 
-Replacement(t) == MetaOf(World, t).repl          \* 0 = none
+(* Tables over the (constant) world: TLC evaluates a constant definition without parameters once, so the graph     *)
+(* closures below are not recomputed for every member of every set of every state (the 44-term world needs that). *)
+MetaTab    == [t \in WIds |-> MetaOf(World, t)]
+AncTab     == [t \in WIds |-> Anc(WPar, t)]
+DescSelfTab == [t \in WIds |-> DescSelf(WPar, t)]
+WModRoots  == ModRoots(World)
+WCatRoots  == CatRoots(World)
+IsModTab   == [t \in WIds |-> (AncTab[t] \cup {t}) \cap WModRoots # {}]
+CatsTab    == [t \in WIds |-> (AncTab[t] \cup {t}) \cap WCatRoots]
+
+Replacement(t) == MetaTab[t].repl          \* 0 = none
 ReplIn(t) == IF Replacement(t) # 0 THEN Replacement(t) ELSE t
 
 (* inherited links of one term: records directly annotated to the term or a descendant *)
 RecsOfKind(k) == IF k = "gene" THEN World.gene ELSE IF k = "omim" THEN World.omim ELSE World.orpha
-LinkedW(k, t) == {r.id : r \in {q \in Range(RecsOfKind(k)) : Range(q.terms) \cap DescSelf(WPar, t) # {}}}
+LinkedTab == [k \in Kinds |-> [t \in WIds |-> {r.id : r \in {q \in Range(RecsOfKind(k)) : Range(q.terms) \cap DescSelfTab[t] # {}}}]]
+LinkedW(k, t) == LinkedTab[k][t]
 SetLinkedW(k, S) == UNION {LinkedW(k, t) : t \in S}
-NRecs(k) == Cardinality({r.id : r \in Range(RecsOfKind(k))})
+NRecsTab == [k \in Kinds |-> Cardinality({r.id : r \in Range(RecsOfKind(k))})]
+NRecs(k) == NRecsTab[k]
 
 (* the pure meaning of every operation on a member set *)
 OpResult(op, S) ==
-  CASE op.name \in {"remove_modifier", "without_modifier"}   -> WithoutModifier(World, S)
-    [] op.name \in {"remove_obsolete", "without_obsolete"}   -> WithoutObsolete(World, S)
+  CASE op.name \in {"remove_modifier", "without_modifier"}   -> {t \in S : ~IsModTab[t]}
+    [] op.name \in {"remove_obsolete", "without_obsolete"}   -> {t \in S : ~MetaTab[t].obsolete}
     [] op.name \in {"replace_obsolete", "with_replaced_obsolete"} -> {ReplIn(t) : t \in S}
-    [] op.name = "child_nodes"                               -> {t \in S : ~\E u \in S : t \in Anc(WPar, u)}
+    [] op.name = "child_nodes"                               -> {t \in S : ~\E u \in S : t \in AncTab[u]}
     [] op.name = "extend"                                    -> S \cup {op.arg}
+
+SetCategoriesW(S) ==
+  LET cs == UNION {CatsTab[t] : t \in S}
+  IN [c \in cs |-> Cardinality({t \in S : c \in CatsTab[t]})]
+
+(* the tables say what HpoSetMeta / HpoSetOps define (checked on the small worlds) *)
+TablesAgree(S) ==
+  /\ OpResult([name |-> "without_modifier", arg |-> 0], S) = WithoutModifier(World, S)
+  /\ OpResult([name |-> "without_obsolete", arg |-> 0], S) = WithoutObsolete(World, S)
+  /\ OpResult([name |-> "with_replaced_obsolete", arg |-> 0], S) = ReplacedObsolete(World, S)
+  /\ OpResult([name |-> "child_nodes", arg |-> 0], S) = {t \in S : ~\E u \in S : t \in Anc(WPar, u)}
+  /\ SetCategoriesW(S) = SetCategories(World, S)
 
 InPlace == {"remove_modifier", "remove_obsolete", "replace_obsolete"}
 Copying == {"child_nodes", "without_modifier", "without_obsolete", "with_replaced_obsolete"}
@@ -77,9 +102,9 @@ Obs(S) ==
     orpha |-> Sorted(SetLinkedW("orpha", S)),
     ic_gene |-> <<Cardinality(SetLinkedW("gene", S)), NRecs("gene")>>,
     ic_omim |-> <<Cardinality(SetLinkedW("omim", S)), NRecs("omim")>>,
-    categories |-> LET f == SetCategories(World, S) ks == Sorted(DOMAIN f) IN [i \in 1..Len(ks) |-> <<ks[i], f[ks[i]]>>] ]
+    categories |-> LET f == SetCategoriesW(S) ks == Sorted(DOMAIN f) IN [i \in 1..Len(ks) |-> <<ks[i], f[ks[i]]>>] ]
 
-SMInit == members \in SUBSET WIds /\ hist = <<>> /\ start = members
+SMInit == members \in InitSets /\ hist = <<>> /\ start = members
 
 Apply(op) ==
   /\ Len(hist) < MaxOps
@@ -95,6 +120,7 @@ SMSpec == SMInit /\ [][SMNext]_smVars
 -----------------------------------------------------------------------------
 (* what a caller relies on, in every reachable state *)
 TypeOK == members \subseteq WIds
+DefsAgree == TablesAgree(members)
 
 (* filters only remove, replacement never grows the set, filters are idempotent *)
 StepLaws ==
